@@ -80,9 +80,15 @@ PROPS = {
               "Affine (asymmetric: every value depends on source index, slot position and degree; emits in reverse order)}: 1500 (40000 thorough) (matrix <= 30/120 "
               "columns — a quarter of them with checks of weight 1 or 0 —, LLR vector, limit) triples; compared exactly: the FULL call trace (order of check / variable / layer rule calls, every incoming list with "
               "sources, every emitted list, returned LLRs) and the final verdict/word/iterations against the textbook reference, plus the buffer model against the "
-              "reference; non-trivial = at least one full iteration executed; distinct = distinct canonical input"),
+              "reference; non-trivial = at least one full iteration executed; distinct = distinct canonical input. Exactness clause: 400 (6000 thorough) random "
+              "forests (3-12 bits, checks of weight 2-4 joining distinct components) x the 8 exact sum-product names (Phi/Tanh, f64/f32, flooding/HL), random-sign "
+              "LLRs of magnitude 0.25-6, limits 1-20: the driver runs the ideal arithmetic (lean/LdpcV/Model/ArithIdeal.lean at Float) through the same textbook "
+              "schedules, checks its LLRs after ncols iterations against the brute-force posterior over all codewords (1e-6), and compares the implementation's "
+              "verdict/word/iterations with the ideal schedule's whenever every hard decision on the way is outside the rounding margin (1e-7 f64, 1e-2 f32; "
+              "count of non-compared cases in correspondence.not_compared)"),
         assumptions=COMMON_ASSUME,
-        partial=["exactness clause (sum-product on cycle-free matrices equals the true posterior LLRs after diameter iterations) is NOT proved; see DESIGN.md C03"],
+        partial=["exactness clause (sum-product on cycle-free matrices equals the true posterior LLRs after diameter iterations): tested numerically as described; "
+                 "the theorem over the reals is in preparation (Props/C03Tree.lean) and is NOT yet part of this check"],
     ),
     "C10": dict(
         level="proof",
